@@ -83,11 +83,11 @@ theorem finv_runCb (s : Stack) (cb : Cb) (hi : FInv s) : FInv (s.runCb cb) := by
         split
         · exact hi
         · rename_i hnd
-          have h1 : FInv (s.cancelTimer isSleep t.sleep) := finv_frame (fpi_cancelTimer _ _ _) hi
-          have ht1 : ftask (s.cancelTimer isSleep t.sleep) n = some t := by
-            have e := fpi_cancelTimer s isSleep t.sleep
+          have h1 : FInv (s.cancelTimer (isSleepFor (.find, n)) t.sleep) := finv_frame (fpi_cancelTimer _ _ _) hi
+          have ht1 : ftask (s.cancelTimer (isSleepFor (.find, n)) t.sleep) n = some t := by
+            have e := fpi_cancelTimer s (isSleepFor (.find, n)) t.sleep
             unfold ftask ftasks
-            rw [show (s.cancelTimer isSleep t.sleep).tasks.filter isFindT = s.tasks.filter isFindT from congrArg (fun p => p.1) e]
+            rw [show (s.cancelTimer (isSleepFor (.find, n)) t.sleep).tasks.filter isFindT = s.tasks.filter isFindT from congrArg (fun p => p.1) e]
             exact ht
           exact finv_stepFind _ n t _ h1 ht1 rfl rfl hnd
     | offer i =>
